@@ -16,8 +16,11 @@
 (*  r.faults  fault the wrapped backend applied at each attempt, in order: *)
 (*            "ok" | "before" (fails, no effect) | "partial" (fails after  *)
 (*            partial data) | "after" (fails after the full effect) |      *)
-(*            "perm" (permanent error) | "notexist" | "mid0".."mid2"       *)
-(*            (listing fails after j entries)                              *)
+(*            "perm" (permanent error) | "ppartial" (permanent error after *)
+(*            partial data) | "notexist" | "mid0".."mid2" (listing fails   *)
+(*            after j entries)                                             *)
+(*  r.vary    list: how the wrapped backend's listing differs between      *)
+(*            attempts: "same" | "size" | "order" | "both"                 *)
 (*  r.ok      the operation returned nil                                   *)
 (*  r.final   save/remove: file under the final name at the end: "absent", *)
 (*            "full", "partial"; load: what the last consumer call read:   *)
@@ -47,7 +50,7 @@ NoPartial(r) == (r.op = "save" /\ ~r.ok) => r.final # "partial"
 
 \* errors that are permanent for the operation in the given configuration: the deprecated behaviour
 \* (flag off) retries everything except a Stat of a missing file
-Permanent(r, f) == \/ f = "perm" /\ r.flag
+Permanent(r, f) == \/ f \in {"perm", "ppartial"} /\ r.flag
                    \/ f = "notexist" /\ (r.flag \/ r.op = "stat")
 \* permanent errors are not retried: no attempt follows one
 PermNotRetried(r) == \A i \in DOMAIN r.faults : Permanent(r, r.faults[i]) => i = Len(r.faults)
